@@ -13,7 +13,7 @@ TNext ==
   /\ l <= Len(Rec)
   /\ l' = l + 1
   /\ LET e == Rec[l] IN
-     IF e.a = "reset" THEN /\ mon' = IF e.mode = "chan" THEN CInit ELSE HInit(e.init)
+     IF e.a = "reset" THEN /\ mon' = IF e.mode = "chan" THEN CInit ELSE [HInit(e.init) EXCEPT !.ring = e.ring]
                            /\ mode' = e.mode /\ bad' = bad
      ELSE IF mode = "skip" \/ e.a = "end" THEN UNCHANGED <<mon, mode, bad>>
      ELSE LET r == IF mode = "chan" THEN CCheck(mon, e) ELSE HCheck(mon, e) IN
